@@ -622,6 +622,27 @@ fn process(out: &mut Out, v: &Value) {
                        "muts": muts.len(), "rejected": rejected})
             });
         }
+        "TokenRaw" => {
+            // a token whose plaintext is given: sealed here with the toy AEAD, as a server sharing
+            // the token key but not the token format would have produced it
+            let plain = bytes_of(&v["plain"]);
+            let dst = bytes_of(&v["dst"]);
+            out.guarded(k, v.clone(), || {
+                let nonce = [7u8; 16];
+                let mut sealed = plain.clone();
+                ToyTokenKey.aead_from_hkdf(&nonce).seal(&mut sealed, &[]).unwrap();
+                sealed.extend_from_slice(&nonce);
+                let mut cfg = ServerConfig::new(Arc::new(NoCrypto), Arc::new(ToyTokenKey));
+                cfg.time_source(Arc::new(FixedTime(1_000)));
+                cfg.retry_token_lifetime(Duration::from_secs(u32::MAX as u64));
+                let remote = SocketAddr::new(IpAddr::V4(Ipv4Addr::new(192, 0, 2, 7)), 4433);
+                let res = match vc::token_check(&cfg, &sealed, &dst, remote) {
+                    Ok((r, o, val)) => json!({"err": false, "rscid": opt(r, |x| jbytes(&x)), "odcid": jbytes(&o), "validated": val}),
+                    Err(()) => json!({"err": true}),
+                };
+                json!({"k": "TokenRaw", "plain": v["plain"], "dst": v["dst"], "res": res})
+            });
+        }
         "CidGen" => {
             let key = v["key"].as_u64().unwrap();
             out.guarded(k, v.clone(), || {
